@@ -722,8 +722,13 @@ MANIFEST = dict(
          "C08_reparse_keyword_types / C08_typeof_getctype_keyword_types DO prove the first sentence, "
          "c_typeof (getctype(T)) = T, for the C-side parser model of coq/C07 (composition with C07.Agree.agree_partial) on "
          "the class Proofs5.kw_type: void, the keyword primitives _Bool..long double, pointers and arrays with a length, "
-         "in any nesting; function types, named types, open arrays, the Python parser and non-empty x remain "
-         "correspondence-only.",
+         "in any nesting (C08_reparse_class: every kw_type T has the tree the theorem asks for). Second sentence, first "
+         "theorems: C08_getctype_suffix_is_name - for EVERY T, ffi_getctype(T,'*'), (T,'[n]'), (T,'[]') and (T,'(*)(args)') "
+         "return exactly ct_name of the backend's pointer-to-T / T[n] / T[] / function-pointer-returning-T type (incl. the "
+         "parentheses an array T needs); C08_typeof_getctype_suffix - composed with the re-parsing theorem, "
+         "c_typeof(getctype(T,'*')) = T* and c_typeof(getctype(T,'[n]')) = T[n] on kw_type (C side). Also proved: "
+         "C08_position_in_range, C08_tail_bracket_iff_array. Function types, named types and open arrays in the re-parsing "
+         "class, the Python parser, and other non-empty x (identifiers, composite declarators) remain correspondence-only.",
     note="Trusted: Coq kernel; hand model C08/Model.v of the name construction (tied by differential testing against "
          "ct.cname on both FFIs); shape-checked literal extraction for FFI.getctype / model.get_c_name / qualify / "
          "new_array_type's buffer; gcc. The re-parsing half relies on the real parsers in the correspondence runs.",
